@@ -4,6 +4,6 @@ CONSTANTS
   MaxLen = 4
   Variant = "intended"
   Times = {1, 2, 3, 4}
-INVARIANTS C32_OneShotRuns C32_OneShotTerminates C32_OneShotErrorStatus C32_ServerRetriesOnce C32_FatalStops C34_Table
+INVARIANTS C32_OneShotRuns C32_OneShotTerminates C32_OneShotErrorStatus C32_ServerRetriesOnce C32_FatalStops C34_Table C34_LatestRunCounts
 PROPERTIES C33_FailedRunChangesNothing
 CHECK_DEADLOCK FALSE
